@@ -683,6 +683,68 @@ fn explore_cmd(id: &str, n: u64, verif_seed: u64) -> i32 {
     0
 }
 
+/// Determinism probe: an order-independent digest over the event logs of n runs (scenario,
+/// every op outcome, output bytes, judged mismatches). Two processes, any worker count, same seed
+/// must print the same line.
+fn digest_cmd(id: &str, n: u64, verif_seed: u64) -> i32 {
+    if id == "C03" {
+        let fx = c03::load_fixtures();
+        let mut acc: u64 = 0;
+        for i in 0..n {
+            let inp = c03::gen_input(verif_seed, i, &fx);
+            let mut d = rng::hash_bytes(&inp.bytes);
+            for e in c03::ENTRIES {
+                d = rng::mix(d, match c03::parse_one(e, &inp.bytes) {
+                    Ok(true) => 1,
+                    Ok(false) => 2,
+                    Err(p) => rng::hash_str(&p.sig()),
+                });
+            }
+            acc = acc.wrapping_add(rng::mix(i, d));
+        }
+        report(&format!("DIGEST {id} runs={n} {:016x}", acc));
+        return 0;
+    }
+    let def = match check_def(id) {
+        Some(d) => d,
+        None => return 2,
+    };
+    let workers: usize = std::env::var("VERIF_WORKERS").ok().and_then(|s| s.parse().ok()).unwrap_or(16);
+    let next = AtomicU64::new(0);
+    let acc = AtomicU64::new(0);
+    let hs = def.hash_seeds.0;
+    std::thread::scope(|s| {
+        for _ in 0..workers {
+            s.spawn(|| {
+                exec::install_logger();
+                loop {
+                    let k = next.fetch_add(1, Ordering::Relaxed);
+                    if k >= n {
+                        break;
+                    }
+                    let d = match gen_for(&def, verif_seed, k) {
+                        Err(e) => rng::hash_str(&e),
+                        Ok(sc) => {
+                            let (j, res, eff) = judge(def.id, &sc, hs);
+                            let mut d = rng::hash_str(&serde_json::to_string(&eff).unwrap_or_default());
+                            for l in trace_of(&eff, &res) {
+                                d = rng::mix(d, rng::hash_str(&l));
+                            }
+                            for m in j.owned.iter().chain(j.others.iter()) {
+                                d = rng::mix(d, rng::hash_str(&format!("{}|{}", m.sig(), m.detail)));
+                            }
+                            d
+                        }
+                    };
+                    acc.fetch_add(rng::mix(k, d), Ordering::Relaxed);
+                }
+            });
+        }
+    });
+    report(&format!("DIGEST {id} runs={n} {:016x}", acc.load(Ordering::Relaxed)));
+    0
+}
+
 fn show_cmd(id: &str, run_no: u64, verif_seed: u64) -> i32 {
     let def = check_def(id).unwrap();
     exec::install_logger();
@@ -730,6 +792,7 @@ fn main() {
         Some("explore") => explore_cmd(&args[2], args.get(3).and_then(|s| s.parse().ok()).unwrap_or(1000), seed),
         Some("show") => show_cmd(&args[2], args.get(3).and_then(|s| s.parse().ok()).unwrap_or(0), seed),
         Some("selftest") => selftest::selftest_cmd(seed),
+        Some("digest") => digest_cmd(&args[2], args.get(3).and_then(|s| s.parse().ok()).unwrap_or(2000), seed),
         _ => {
             eprintln!("usage: sim check <ID> [--tier quick|thorough] | replay <file> | explore <ID> <n> | show <ID> <run>");
             2
